@@ -1280,6 +1280,7 @@ func checkC05(c *Ctx, r *Report, tier string) {
 		c05R4(c, r, rl, ro)
 	}
 	startNodeRule(c, r, "C05.R5")
+	bootstrapOnlyWhenNothingPersisted(c, r, "C05.R5")
 	r.Rule("C05.R8", "the log store never tells raft about entries it does not have: every path from an entry write to a successful return updates (or discards) the cached last index", 1)
 	walCacheFollowsWrites(c, r, "C05.R8")
 	r.Rule("C05.R9", "after a restart raft finds what it persisted: the hard state is written whenever it is not empty, all parts of a Ready reach their writer, compaction keeps the snapshot's anchor entry", 6)
